@@ -87,11 +87,11 @@ def runCase (toks : List String) : String :=
     | [] => (if started then acc else showSt cfg.st "-" :: acc).reverse
     | t :: rest =>
       match fields t with
-      | ["cfg", role, st, latch, nom, uf, pw] =>
+      | ["cfg", role, st, latch, nom, uf, pw, mode] =>
         match parseState st, unhex uf, unhex pw with
         | some st, some uf, some pw =>
           let s := { cfg.st with role := if role = "controlling" then .controlling else .controlled, state := st,
-                                 latching := latch = "1",
+                                 latching := latch = "1", webrtc := mode = "webrtc",
                                  nominated := if nom = "t" then some true else if nom = "f" then some false else none }
           go { st := s, ufrag := uf, pwd := pw } rest acc started
         | _, _, _ => ("bad-cfg" :: acc).reverse
@@ -131,7 +131,7 @@ def runCase (toks : List String) : String :=
         | _, _, _ => ("bad-pkt" :: acc).reverse
       | _ => ("bad-token" :: acc).reverse
   let s0 : St := { role := .controlled, state := .new, remotes := [], locals := [], selected := none,
-                   nominated := none, pending := [], latching := false }
+                   nominated := none, pending := [], latching := false, webrtc := true }
   " ".intercalate (go ⟨s0, [], []⟩ toks [] false)
 
 /-- `auth <ufraghex> <pwdhex> <pkthex>` → the driver's reading of the request's credentials -/
@@ -142,9 +142,22 @@ def handle (stream : String) (args : List String) : String :=
     match unhex uf, unhex pw, unhex h with
     | some uf, some pw, some b =>
       match classify realPrims uf pw b with
-      | .request r => s!"request auth={b01 r.authentic} uc={b01 r.useCandidate}"
+      | .request r => s!"request auth={b01 r.accepted} rfc={b01 (rfcAuthentic realPrims uf pw b)} uc={b01 r.useCandidate}"
       | .response _ e => s!"response err={b01 e}"
       | .empty => "empty" | .data => "data" | .undecodable => "undecodable" | .indication => "indication"
+    | _, _, _ => "bad-hex"
+  | "vmi", [k, h] =>
+    match unhex k, unhex h with
+    | some k, some b => b01 (verifyMI realPrims k b)
+    | _, _ => "bad-hex"
+  | "uname", [h] =>
+    match unhex h with
+    | some b => (match usernameOf b with | some (_, u) => "s" ++ hex u | none => "n") ++ " " ++
+                (match peerUfrag b with | some u => "s" ++ hex u | none => "n")
+    | none => "bad-hex"
+  | "codeauth", [uf, pw, h] =>
+    match unhex uf, unhex pw, unhex h with
+    | some uf, some pw, some b => b01 (codeAuth realPrims uf pw b)
     | _, _, _ => "bad-hex"
   | _, _ => "bad-stream"
 
